@@ -14,7 +14,7 @@ def clone(node):
     for f in node._fields:
         if hasattr(node, f):
             setattr(new, f, clone(getattr(node, f)))
-    for a in ("lineno", "col_offset", "end_lineno", "end_col_offset"):
+    for a in ("lineno", "col_offset", "end_lineno", "end_col_offset", "_flag"):
         if hasattr(node, a):
             setattr(new, a, getattr(node, a))
     return new
